@@ -916,6 +916,21 @@ def get_code(node: ast.AST | Range, source: str) -> str:
 
 
 def literal_value(node: ast.AST) -> bool:
+    """Evaluate a node that has a value which is known without running the program.
+
+    Raises:
+        ValueError: If the node has no such value. This includes expressions whose evaluation
+            fails, like 1 / 0 or "a" < 1.
+    """
+    try:
+        return _literal_value(node)
+    except ValueError:
+        raise
+    except Exception as error:
+        raise ValueError(f"Cannot find a deterministic value: {error!r}") from error
+
+
+def _literal_value(node: ast.AST) -> bool:
     if has_side_effect(node, safe_callable_whitelist=constants.BUILTIN_FUNCTIONS):
         raise ValueError("Cannot find a deterministic value for a node with a side effect")
 
